@@ -100,6 +100,216 @@ def traceOf (cfg : Config) (ops : List Op) (withEnd : Bool) : List (MOp × Line)
   (.start cfg.t1 cfg.t2, .obs (obsOf [] (init cfg) .ok)) :: linesFrom (init cfg) ops ++
     (if withEnd then [(.finish, endLine (run (init cfg) ops))] else [])
 
+/-! ## the printed form of the lines (what the driver prints for the model) -/
+
+def fmtAddr (a : Addr) : String := IceSpec.LineProto.joinC ':' [toString a.ip, toString a.port]
+
+def fmtErr : ErrKind → String
+  | .eof => "err:eof" | .reset => "err:reset" | .short => "err:short"
+
+/-- the result as tokens (joined by single spaces in the output line) -/
+def fmtRes : Res → List String
+  | .ok => ["ok"] | .refused => ["refused"] | .noop => ["noop"] | .bad => ["bad-op"] | .already => ["already"]
+  | .sent n => ["sent", toString n]
+  | .handle h => ["h" ++ toString h]
+  | .errClosed => ["err:closed"]
+  | .wrote n => ["n=" ++ toString n]
+  | .pkt p => match p.err with
+    | none => ["pkt", fmtAddr p.src, showId p.fid p.len, toString p.len]
+    | some e => [fmtErr e, fmtAddr p.src]
+  | .empty => ["empty"]
+
+/-- the result tokens of one model step -/
+def resToks (op : Op) (r : Res) : List String :=
+  match op, r with
+  | .partialFrame _, .ok => ["sent"]
+  | _, _ => fmtRes r
+
+/-- the printed `new` line -/
+def printedStart (cfg : Config) : String := printObs ["ok"] (obsOf [] (init cfg) .other)
+
+/-- the printed output line of one model step -/
+def printedLine (s : State) (op : Op) : String :=
+  match (step s op).2 with
+  | .bad => "bad-op"
+  | r => printObs (resToks op r) (obsOf s.tcps (step s op).1 .other)
+
+/-- the printed `end` line -/
+def printedEnd (s : State) : String :=
+  let s' := run s (endOps s)
+  printObs (if allDown s' then ["end", "ok"] else ["end", "LEAK"]) (obsOf s.tcps s' .other)
+
+def printedFrom (s : State) : List Op → List (MOp × String)
+  | [] => []
+  | op :: ops => (mopOf op, printedLine s op) :: printedFrom (step s op).1 ops
+
+/-- The printed trace of a session of the model: typed operation, output line as text. -/
+def printedTrace (cfg : Config) (ops : List Op) (withEnd : Bool) : List (MOp × String) :=
+  (.start cfg.t1 cfg.t2, printedStart cfg) :: printedFrom (init cfg) ops ++
+    (if withEnd then [(.finish, printedEnd (run (init cfg) ops))] else [])
+
+/-! ## the operation tokens as the driver reads them for the model -/
+
+def parseKind (s : String) : Option FKind :=
+  match s.toList with
+  | 'u' :: r => some (.user (String.ofList r))
+  | 'w' :: r => some (.user (String.ofList r))
+  | ['n'] => some .noUser
+  | ['o'] => some .otherMethod
+  | ['g'] => some .notStun
+  | ['d'] => some .notStun
+  | _ => none
+
+/-- one harness operation → model operation; `none` = malformed (the driver answers `bad-op`).  The
+payload id of `write` must be a canonical decimal (`007` is refused): the monitor compares it as text. -/
+def parseOp (s : State) (toks : List String) : Option Op :=
+  match toks with
+  | ["accept", k, ip, port, lip] =>
+    match k.toNat?, ip.toNat?, port.toNat?, lip.toNat? with
+    | some k, some ip, some port, some lip =>
+      if k = s.tcps.length ∧ ip < 4 ∧ lip < 4 then some (.accept ⟨ip, port⟩ lip) else none
+    | _, _, _, _ => none
+  | ["frame", k, fid, kind, len] =>
+    match k.toNat?, fid.toNat?, parseKind kind, len.toNat? with
+    | some k, some fid, some kind, some len => some (.frame k ⟨fid, kind, len⟩)
+    | _, _, _, _ => none
+  | ["partial", k, _fid, _kind, _len, _cut] => k.toNat?.map .partialFrame
+  | ["cclose", k] => k.toNat?.map (.clientClose · false)
+  | ["creset", k] => k.toNat?.map (.clientClose · true)
+  | ["advance", dt] => dt.toNat?.map .advance
+  | ["getconn", u, v6, lip] =>
+    match parseU u, lip.toNat? with
+    | some u, some lip => if lip < 4 then some (.getConn ⟨u, v6 == "1", lip⟩) else none
+    | _, _ => none
+  | ["remove", u] => (parseU u).map .removeByUfrag
+  | ["closeh", h] => (parseH h).map .closeHandle
+  | ["closepc", h] => (parseH h).map .closePacketConn
+  | ["write", h, ip, port, pid, len] =>
+    match parseH h, ip.toNat?, port.toNat?, canonNat pid, len.toNat? with
+    | some h, some ip, some port, some pid, some len => if ip < 4 then some (.write h ⟨ip, port⟩ pid len) else none
+    | _, _, _, _, _ => none
+  | ["read", h] => (parseH h).map .read
+  | ["closemux"] => some .closeMux
+  | _ => none
+
+def kindTok : FKind → String
+  | .user u => "u" ++ u
+  | .noUser => "n"
+  | .otherMethod => "o"
+  | .notStun => "g"
+
+def flagTok (b : Bool) : String := if b then "1" else "0"
+
+/-- the canonical tokens of a model operation in state `s` (what the generator side prints) -/
+def opToks (s : State) : Op → List String
+  | .accept peer lip => ["accept", toString s.tcps.length, toString peer.ip, toString peer.port, toString lip]
+  | .frame k f => ["frame", toString k, toString f.fid, kindTok f.kind, toString f.len]
+  | .partialFrame k => ["partial", toString k, "0", "n", "0", "0"]
+  | .clientClose k reset => [if reset then "creset" else "cclose", toString k]
+  | .advance dt => ["advance", toString dt]
+  | .getConn key => ["getconn", "U" ++ key.ufrag, flagTok key.v6, toString key.lip]
+  | .removeByUfrag u => ["remove", "U" ++ u]
+  | .closeHandle h => ["closeh", "h" ++ toString h]
+  | .closePacketConn h => ["closepc", "h" ++ toString h]
+  | .write h dst pid len => ["write", "h" ++ toString h, toString dst.ip, toString dst.port, toString pid, toString len]
+  | .read h => ["read", "h" ++ toString h]
+  | .closeMux => ["closemux"]
+
+/-- the operation is one the line protocol can carry: fake addresses are 0…3 -/
+def opWF : Op → Bool
+  | .accept peer lip => decide (peer.ip < 4) && decide (lip < 4)
+  | .getConn key => decide (key.lip < 4)
+  | .write _ dst _ _ => decide (dst.ip < 4)
+  | _ => true
+
+def startToks (cfg : Config) : List String :=
+  ["new", toString cfg.cap, if cfg.wbuf then "1" else "0", toString cfg.t1, toString cfg.t2]
+
+def tokensFrom (s : State) : List Op → List (List String × String)
+  | [] => []
+  | op :: ops => (opToks s op, printedLine s op) :: tokensFrom (step s op).1 ops
+
+/-- The session of the model as TEXT on both sides: operation tokens and output line. -/
+def tokenTrace (cfg : Config) (ops : List Op) (withEnd : Bool) : List (List String × String) :=
+  (startToks cfg, printedStart cfg) :: tokensFrom (init cfg) ops ++
+    (if withEnd then [(["end"], printedEnd (run (init cfg) ops))] else [])
+
+/-- run the string monitor `observe` over a textual session; the verdict of every line -/
+def verdictsS (m : Mon) : List (List String × String) → List (Option String)
+  | [] => []
+  | (toks, l) :: tr => (observe m toks l).2 :: verdictsS (observe m toks l).1 tr
+
+/-! S2: `MultiTCPMuxDefault.GetAllConns` — the first failing mux aborts the loop, nothing is released -/
+def multiGetAll : List State → Key → List State × Bool
+  | [], _ => ([], true)
+  | m :: ms, key =>
+    match step m (.getConn key) with
+    | (m', .handle _) => let (ms', ok) := multiGetAll ms key; (m' :: ms', ok)
+    | (m', _) => (m' :: ms, false)
+
+def multiLine (n bad : Nat) (hasBad : Bool) : String :=
+  let key : Key := ⟨"a", false, 0⟩
+  let muxes := (List.range n).map (fun i =>
+    let m := init ⟨0, false, 0, 0⟩
+    if hasBad ∧ i = bad then (step m .closeMux).1 else m)
+  if n = 0 then "err:nomux ;  ; afterRemove=0 ; g=0" else
+  let (ms, ok) := multiGetAll muxes key
+  let res := if ok then s!"n={n}" else "err:closed"
+  let per := ms.map (fun m => match findPc m.pcs key with
+    | some p => (match m.pcs[p]? with | some pc => s!"reg:{pc.refs}" | none => "none")
+    | none => "none")
+  let ms2 := ms.map (fun m => (step m (.removeByUfrag "a")).1)
+  let after := (ms2.filter (fun m => (findPc m.pcs key).isSome)).length
+  let ms3 := ms2.map (fun m => (step m .closeMux).1)
+  let g := ms3.foldl (fun acc m => let l := ledger m; acc + l.acceptor + l.handlers + l.watchers + l.readers + l.writers) 0
+  s!"{res} ; {",".intercalate per} ; afterRemove={after} ; g={g}"
+
+
+/-- The MODEL SIDE of the driver: the next model state (`none` = no session) and the printed output
+line for one input line `toks` (tokens without the component name). -/
+def modelStep (ms : Option State) (toks : List String) : Option State × String :=
+  match toks with
+  | ["new", cap, wbuf, t1, t2] =>
+    match cap.toNat?, wbuf.toNat?, t1.toNat?, t2.toNat? with
+    | some cap, some wbuf, some t1, some t2 =>
+      (some (init ⟨cap, wbuf > 0, t1, t2⟩), printedStart ⟨cap, wbuf > 0, t1, t2⟩)
+    | _, _, _, _ => (none, "bad-op")
+  | ["multi", n, bad] =>
+    match n.toNat?, bad.toInt? with
+    | some n, some bad =>
+      if n ≤ 4 ∧ bad < (n : Int) then (none, multiLine n bad.toNat (bad ≥ 0)) else (none, "bad-op")
+    | _, _ => (none, "bad-op")
+  | ["end"] =>
+    match ms with
+    | none => (none, "end ok (no mux)")
+    | some s => (none, printedEnd s)
+  | _ =>
+    match ms with
+    | none => (none, "no-session")
+    | some s =>
+      match parseOp s toks with
+      | none => (some s, "bad-op")
+      | some op =>
+        match (step s op).2 with
+        | .bad => (some s, "bad-op")
+        | _ => (some (step s op).1, printedLine s op)
+
+/-- The driver's model side over a whole input (any lines): the verdicts of the monitor copy that is fed
+with the model's own printed output (`Driver.TcpMux.step`: `MODEL-REJECTED-BY-MONITOR` iff `some`). -/
+def driverRun (ms : Option State) (m : Mon) : List (List String) → List (Option String)
+  | [] => []
+  | toks :: rest =>
+    (observe m toks (modelStep ms toks).2).2 ::
+      driverRun (modelStep ms toks).1 (observe m toks (modelStep ms toks).2).1 rest
+
+/-- the STRING monitor on an output line: `observe m toks impl = observeL m (parseToks toks) impl` -/
+def observeL (m : Mon) (op : MOp) (impl : String) : Mon × Option String := observeT m op (parseLine impl)
+
+/-- run the string monitor over printed lines; the verdict of every line -/
+def verdictsL (m : Mon) : List (MOp × String) → List (Option String)
+  | [] => []
+  | (op, l) :: tr => (observeL m op l).2 :: verdictsL (observeL m op l).1 tr
+
 /-- run the monitor over a trace; the verdict of every line -/
 def verdicts (m : Mon) : List (MOp × Line) → List (Option String)
   | [] => []
